@@ -141,7 +141,28 @@ pub fn run(ctx: &mut Ctx) {
             ..Opts::default()
         };
         let n_partials = r.below(5);
-        let sc = scenario(&mut r, n_partials, i % 2 == 0, &opts);
+        let mut sc = scenario(&mut r, n_partials, i % 2 == 0, &opts);
+        // the render tag falls back to "<name>.liquid": exercise partials stored under that name,
+        // alone or next to a differently-bodied partial of the bare name, used in every order
+        if !sc.partials.is_empty() && r.chance(1, 3) {
+            let k = r.below(sc.partials.len());
+            let bare = sc.partials[k].0.clone();
+            if r.chance(1, 2) {
+                sc.partials[k].0 = format!("{bare}.liquid");
+            } else {
+                sc.partials.push((format!("{bare}.liquid"), format!("(alt-{bare})")));
+            }
+            let mut uses = vec![format!("{{% render '{bare}' %}}"), format!("{{% include '{bare}.liquid' %}}"), format!("{{% include '{bare}' %}}"), format!("{{% render '{bare}.liquid' %}}")];
+            r.shuffle(&mut uses);
+            for u in uses.iter().take(1 + r.below(4)) {
+                if r.chance(1, 2) {
+                    sc.main.push_str(u);
+                } else {
+                    sc.main = format!("{u}{}", sc.main);
+                }
+            }
+            ctx.count("scenarios:with-dot-liquid-names");
+        }
         let renders = 1 + r.below(3);
         ctx.set_progress(&replay_json(&sc).to_string());
         let uses_partials = sc.main.contains("include") || sc.main.contains("render");
